@@ -76,7 +76,7 @@ Qed.
 Lemma prw_crel_mut :
   (forall t t', prw t t' -> forall bs r, crel fl bs t r t' r) /\
   (forall es es', prws es es' -> forall bs r, crels fl bs es r es' r) /\
-  (forall fs fs', prwf fs fs' -> forall ns bs r, crelf fl ns bs fs r fs' r).
+  (forall fs fs', prwf fs fs' -> forall ns bs r, crelf fl false ns bs fs r fs' r).
 Proof.
   apply prw_mutind.
   - intros. apply crel_refl.
